@@ -117,8 +117,13 @@ def s_rollup(ctx, shape, limited):
         return
     finally:
         C._Component._solv_get_warns = orig
-    rows = sysh.table_rows(df)[""]
     ctx.cover("solved")
+    allrows = sysh.table_rows(df)
+    for ph in (list(durations) or [""]):
+        _rollup_phase(ctx, shape, info, allrows[ph], limited, lims, ph)
+
+
+def _rollup_phase(ctx, shape, info, rows, limited, lims, ph):
     from .sys_common import domain_alts
 
     sources = [n["name"] for n in shape["nodes"] if n["kind"] == "Source"]
@@ -134,8 +139,14 @@ def s_rollup(ctx, shape, limited):
         tp = r.get("tp", 25.0)
         if kind == "Source":
             tr, tp = 0.0, 0.0
-        if "tr" in r and r["tr"] == "":
+        if "tr" in r and isinstance(r["tr"], str):
             tr, tp = 0.0, 0.0
+        silent = bool(ph) and info[name]["conf"] and ph not in info[name]["conf"] and (kind in spec.LOADS or kind in ("Converter", "LinReg", "PSwitch", "PMux"))
+        if silent:
+            ctx.check("phase-not-listed=>no-warning", cond(not got), info={"row": name, "phase": ph})
+            for c, s in domain_alts(info, name, rows):
+                by_src[s].append((c, bool(got)))
+            continue
         q = {"vi": r["vin"], "vo": r["vout"], "vd": Abs(r["vin"]) - Abs(r["vout"]), "ii": r["iin"], "io": r["iout"],
              "pi": r["pwr"], "po": r["pwr"] - r["loss"], "pl": r["loss"], "tr": tr, "tp": tp}
         if kind in spec.LOADS:
@@ -153,10 +164,10 @@ def s_rollup(ctx, shape, limited):
         for s in sources:
             cell = rows["Subsystem " + s]["warn"]
             want = Or(*[And(c, cond(w)) for c, w in by_src[s]])
-            ctx.check("subsystem-yes<=>member-has-warning", Iff(cond(cell == "Yes"), want), info={"row": "Subsystem " + s})
+            ctx.check("subsystem-yes<=>member-has-warning", Iff(cond(cell == "Yes"), want), info={"row": "Subsystem " + s, "phase": ph})
             ctx.check("subsystem-cell-is-yes-or-empty", cond(cell in ("Yes", "")))
     tot = rows["System total"]["warn"]
-    ctx.check("total-yes<=>any-warning", cond((tot == "Yes") == any_w))
+    ctx.check("total-yes<=>any-warning", cond((tot == "Yes") == any_w), info={"phase": ph})
     if any_w:
         ctx.cover("some-warning")
 
@@ -200,6 +211,10 @@ def instances(tier):
     mux = S(N("S1", "Source", pol="nonneg", only=()), N("S2", "Source", only=()), N("M", "PMux", ["S1", "S2"], only=("rs",)), N("L", "RLoad", "M", only=()))
     out.append(Instance("C09", "c09:s_rollup", dict(shape=mux, limited={"M": ["vd"], "L": ["pi"]}), name="S/mux/vd+pi", uf=True,
                         cover=["solved", "some-warning"], weight=30))
+    phs = S(N("S1", "Source", only=()), N("L1", "ILoad", "S1", only=(), phases=["a", "b"]), N("S2", "Source", only=()), N("L2", "RLoad", "S2", only=()),
+            phases=["a", "b"])
+    out.append(Instance("C09", "c09:s_rollup", dict(shape=phs, limited={"S1": ["io"], "L2": ["ii"]}), name="S/two-src-phases/io+ii", uf=True,
+                        cover=["solved", "some-warning"], weight=40))
     one = S(N("S", "Source"), N("G", "LinReg", "S", only=("vdrop",)), N("L", "RLoad", "G", only=()))
     out.append(Instance("C09", "c09:s_rollup", dict(shape=one, limited={"G": ["vd", "tp"]}), name="S/one-src/vd+tp", uf=True,
                         cover=["solved", "some-warning"], weight=30))
